@@ -45,6 +45,9 @@ type c09Client struct {
 	tar   bool
 	spec  c09Spec
 	log   func(c09Ev)
+	seq   int // the operation in progress (read by the store.writing hook of a process client)
+	// firstPut: the first operation is a store (all clients of a stampede case store into the cold cache at once)
+	firstPut bool
 }
 
 func (cl *c09Client) run(seed uint64, idx int) {
@@ -55,7 +58,9 @@ func (cl *c09Client) run(seed uint64, idx int) {
 		return
 	}
 	for i := 0; i < cl.nops; i++ {
-		if rnd.IntN(3) == 0 {
+		cl.seq = i
+		// stampede cases: every client begins by storing into the cold cache
+		if (cl.firstPut && i == 0) || rnd.IntN(3) == 0 {
 			cl.log(c09Ev{Client: cl.id, Seq: i, Op: "put", Phase: "call", T: monoNow()})
 			err := st.store.PutModuleDatas(ctx, []bufmodule.ModuleData{c09Data(ctx, cl.spec)})
 			out := "ok"
@@ -93,10 +98,19 @@ func init() {
 		defer f.Close()
 		// the child has no result channel for violations: a wrong-content read is logged as the outcome "found-wrong"
 		c := core.NewDetachedC("C09", seed, idx)
-		cl := &c09Client{c: c, id: id, nops: nops, cache: args[0], tar: args[1] == "1", spec: s, log: func(ev c09Ev) {
+		cl := &c09Client{c: c, id: id, nops: nops, cache: args[0], tar: args[1] == "1", spec: s, firstPut: os.Getenv("C09_FIRST_PUT") == "1", log: func(ev c09Ev) {
 			data, _ := json.Marshal(ev)
 			f.Write(append(data, '\n'))
 		}}
+		// mutual-exclusion monitor: the moment this process is inside the exclusive write section of the store
+		// (exclusive lock held, re-check done) is logged; the section ends when PutModuleDatas returns
+		verifhook.Arm("store.writing", verifhook.Action{Func: func(string, int) {
+			cl.log(c09Ev{Client: cl.id, Seq: cl.seq, Op: "cs", Phase: "enter", T: monoNow()})
+		}})
+		// a slow reader: between the digest verification of an entry and the reading of its files
+		if us, _ := strconv.Atoi(os.Getenv("C09_SLOW_READER_US")); us > 0 {
+			c09SlowReader = time.Duration(us) * time.Microsecond
+		}
 		cl.run(seed, idx)
 		return 0
 	})
@@ -143,6 +157,10 @@ func c09Hist(c *core.C, idx int, race bool) {
 	clients := 2 + c.Rand.IntN(5)
 	nops := 2 + c.Rand.IntN(4)
 	sleepUS := []int{0, 200, 2000, 20000}[c.Rand.IntN(4)]
+	stampede := idx%2 == 1
+	if stampede {
+		c.Count("hist_stampede_cases", 1)
+	}
 	var events []c09Ev
 	if race {
 		// goroutine clients in the -race build
@@ -156,7 +174,7 @@ func c09Hist(c *core.C, idx int, race bool) {
 		var mu sync.Mutex
 		var wg sync.WaitGroup
 		for i := 0; i < clients; i++ {
-			cl := &c09Client{c: c, id: i, nops: nops, cache: cache, tar: tar, spec: s, log: func(ev c09Ev) {
+			cl := &c09Client{c: c, id: i, nops: nops, cache: cache, tar: tar, spec: s, firstPut: stampede, log: func(ev c09Ev) {
 				mu.Lock()
 				events = append(events, ev)
 				mu.Unlock()
@@ -183,8 +201,14 @@ func c09Hist(c *core.C, idx int, race bool) {
 		for i := 0; i < clients; i++ {
 			cmd := exec.Command(core.SelfExe(), "helper", "c09client", cache, tarArg, c09SpecFile(c, specJSON), strconv.Itoa(i), strconv.Itoa(nops), strconv.FormatUint(c.Seed, 10), strconv.Itoa(idx), filepath.Join(logDir, fmt.Sprintf("c%d.log", i)))
 			cmd.Env = os.Environ()
+			if stampede {
+				cmd.Env = append(cmd.Env, "C09_FIRST_PUT=1")
+			}
 			if sleepUS > 0 {
 				cmd.Env = append(cmd.Env, fmt.Sprintf("VERIF_SLEEP=store.unlocked:%d,store.writing:%d,store.files.copied:%d,os.close.closed:%d", sleepUS, sleepUS, sleepUS, sleepUS))
+				if i%2 == 1 {
+					cmd.Env = append(cmd.Env, fmt.Sprintf("C09_SLOW_READER_US=%d", sleepUS))
+				}
 			}
 			if c.Rand.IntN(4) == 0 {
 				// this client dies somewhere inside its work
@@ -219,8 +243,15 @@ func c09Hist(c *core.C, idx int, race bool) {
 	calls := map[opKey]c09Ev{}
 	rets := map[opKey]c09Ev{}
 	var maxT int64
+	enters := map[opKey]int64{}
 	for _, ev := range events {
 		k := opKey{ev.Client, ev.Seq}
+		if ev.Op == "cs" {
+			if _, ok := enters[k]; !ok {
+				enters[k] = ev.T
+			}
+			continue
+		}
 		if ev.Phase == "call" {
 			calls[k] = ev
 		} else {
@@ -251,6 +282,31 @@ func c09Hist(c *core.C, idx int, race bool) {
 		}
 		history = append(history, porcupine.Operation{ClientId: k.c, Input: call.Op, Call: call.T, Output: ret.Out, Return: ret.T})
 		c.Distinct("hist_outcomes", call.Op+"→"+ret.Out)
+	}
+	// mutual exclusion of the write section (directory layout; the tar layout builds the entry without a lock
+	// and publishes it with one atomic put): the intervals [store.writing, return of PutModuleDatas] of two
+	// processes must not overlap — both would be holding the "exclusive" lock of the entry
+	if !race && !tar {
+		type section struct {
+			k        opKey
+			from, to int64
+		}
+		var secs []section
+		for k, from := range enters {
+			if ret, ok := rets[k]; ok {
+				secs = append(secs, section{k, from, ret.T})
+			}
+		}
+		c.Count("exclusive_sections_observed", len(secs))
+		for i := range secs {
+			for j := i + 1; j < len(secs); j++ {
+				a, b := secs[i], secs[j]
+				if a.k.c != b.k.c && a.from < b.to && b.from < a.to {
+					c.Violation("exclusive-write-section-overlap", fmt.Sprintf("hist sleep=%d", sleepUS),
+						fmt.Sprintf("case %d: clients %d and %d were inside the exclusive write section of the same entry at the same time: [%d,%d] and [%d,%d] (monotonic ns relative to the first)", idx, a.k.c, b.k.c, 0, a.to-a.from, b.from-a.from, b.to-a.from), nil)
+				}
+			}
+		}
 	}
 	c.Eval(len(history))
 	c.Count("hist_ops", len(history))
